@@ -71,9 +71,14 @@ def _run(mod, a, seed):
         if a.replay:
             return mod.replay(a.replay)
         return mod.run(a.tier, seed)
-    except Exception:
+    except Exception as exc:
         traceback.print_exc()
         import common
+        if isinstance(exc, common.CodeFault) and not a.replay:
+            chk = common.PRIMARY[0] if common.PRIMARY else common.Check(a.pid, a.tier, seed)
+            chk.violation(exc.key, dict(detail=exc.detail))
+            chk.assumptions.append("run cut short: the object under test could not be brought into the state the check needs")
+            return chk.finish()
         if common.PRIMARY and common.PRIMARY[0].violations and not a.replay:
             # violations established before the machinery broke stand on their own replay files
             print("MACHINERY-FAILURE property=%s in a later phase; reporting the violations found before it" % a.pid)
